@@ -38,7 +38,10 @@ const HEALTH_TIMEOUT: Duration = Duration::from_secs(5); // the fleets' DEFAULT_
 /// Cases whose oracle failure was confirmed. After this many the remaining cases are not run: the
 /// verdict is settled, and a defect that makes every case slow must not make the run endless.
 static CONFIRMED: AtomicU64 = AtomicU64::new(0);
-const ENOUGH_CONFIRMED: u64 = 40;
+const ENOUGH_CONFIRMED: u64 = 12;
+/// A single call that takes longer than this is far beyond what any generated script can cost
+/// (at most 3 silent attempts of 120 ms, or two default delays of 1 s).
+const SLOW_CALL: Duration = Duration::from_secs(3);
 const IDLE_WATCHDOG: Duration = Duration::from_secs(2);
 /// Watchdog expiries so far. When the implementation's socket behaviour systematically differs from
 /// what the scripts engineer (e.g. a client that no longer closes its socket after EOF), every case
@@ -70,23 +73,24 @@ struct Pv {
     cl: u8, // which handle operations go through: 0 the fleet, 1 alternately a held clone, 2 a fresh clone each
     mf: u8, // which malformed reply the node sends
     op: u8, // constructor: 0 `with_options`, 1 `new` (default options: 3 attempts, 1 s delay; only with max 3)
+    ob: u8, // observer threads sweeping the read-only entry points while the case runs (0–3)
 }
 
-const PV_RANGES: [u8; 11] = [6, 6, 4, 5, 3, 4, 3, 3, 3, 3, 2];
+const PV_RANGES: [u8; 12] = [6, 6, 4, 5, 3, 4, 3, 3, 3, 3, 2, 4];
 
 impl Pv {
-    fn fields(&self) -> [u8; 11] {
-        [self.nm, self.tg, self.me, self.pa, self.to, self.dl, self.dt, self.by, self.cl, self.mf, self.op]
+    fn fields(&self) -> [u8; 12] {
+        [self.nm, self.tg, self.me, self.pa, self.to, self.dl, self.dt, self.by, self.cl, self.mf, self.op, self.ob]
     }
-    fn from_fields(f: [u8; 11]) -> Pv {
-        Pv { nm: f[0], tg: f[1], me: f[2], pa: f[3], to: f[4], dl: f[5], dt: f[6], by: f[7], cl: f[8], mf: f[9], op: f[10] }
+    fn from_fields(f: [u8; 12]) -> Pv {
+        Pv { nm: f[0], tg: f[1], me: f[2], pa: f[3], to: f[4], dl: f[5], dt: f[6], by: f[7], cl: f[8], mf: f[9], op: f[10], ob: f[11] }
     }
     fn parse(w: &str) -> Option<Pv> {
         let v: Vec<u8> = w.strip_prefix("p=")?.split('.').map(|x| x.parse::<u8>().ok()).collect::<Option<Vec<u8>>>()?;
-        if !(v.len() == 10 || v.len() == 11) || v.iter().zip(PV_RANGES).any(|(x, r)| *x >= r) {
+        if !(10..=12).contains(&v.len()) || v.iter().zip(PV_RANGES).any(|(x, r)| *x >= r) {
             return None;
         }
-        let mut f = [0u8; 11];
+        let mut f = [0u8; 12];
         f[..v.len()].copy_from_slice(&v);
         Some(Pv::from_fields(f))
     }
@@ -95,11 +99,15 @@ impl Pv {
     }
     /// Each field: the ordinary value half of the time, otherwise any of its values.
     fn random(rng: &mut Rng) -> Pv {
-        let mut f = [0u8; 11];
+        let mut f = [0u8; 12];
         for (x, r) in f.iter_mut().zip(PV_RANGES).take(10) {
             if rng.chance(1, 2) {
                 *x = rng.below(r as u64) as u8;
             }
+        }
+        // observers in one case in eight (they cost CPU that the timing of the other cases needs)
+        if rng.chance(1, 8) {
+            f[11] = 1 + rng.below(3) as u8;
         }
         Pv::from_fields(f)
     }
@@ -750,6 +758,10 @@ fn handle_conn(sh: Arc<NodeShared>, mut s: TcpStream, id: u64) {
         st.conns.retain(|(i, _)| *i != id);
         sh.cv.notify_all();
     };
+    // a connection on which the node once stayed silent is hung: whatever else arrives on it is read
+    // and never answered, whatever the script says next (a node that is reachable again is reachable
+    // on a new connection)
+    let mut hung = false;
     loop {
         if !poll_in(fd, 50) {
             if sh.st.lock().unwrap().stop {
@@ -769,7 +781,7 @@ fn handle_conn(sh: Arc<NodeShared>, mut s: TcpStream, id: u64) {
             if req.query != st.token {
                 st.trouble = Some("stranger".into()); // a request that was meant for another node
             }
-            let b = st.next_behaviour();
+            let b = if hung { Beh::Silent } else { st.next_behaviour() };
             log_index = st.log.len();
             st.log.push(Contact { beh: b, via: Via::Request, t: Instant::now(), conn: id });
             if b == Beh::Idle {
@@ -802,7 +814,7 @@ fn handle_conn(sh: Arc<NodeShared>, mut s: TcpStream, id: u64) {
                     }
                 };
             }
-            Beh::Silent => {}
+            Beh::Silent => hung = true,
             Beh::Atc | Beh::Refused => close = true,
             Beh::Idle => {
                 let _ = s.write_all(&reply_frame(&req, 0, 2, reply_payload(sh.id, log_index).as_bytes()));
@@ -951,6 +963,14 @@ impl Node {
     fn exhausted(&self) -> bool {
         let st = self.sh.st.lock().unwrap();
         st.p >= st.script.len()
+    }
+    /// A new script for the same node (its connections and log stay).
+    fn reload(&self, script: Vec<Beh>) {
+        let mut st = self.sh.st.lock().unwrap();
+        st.script = script;
+        st.p = 0;
+        st.healthy = false;
+        self.sh.sync_listener(&mut st);
     }
     fn set_healthy(&self) {
         let mut st = self.sh.st.lock().unwrap();
@@ -1237,7 +1257,7 @@ struct CaseOut {
 
 /// Coverage evidence: which value of each varied parameter the judged cases had.
 fn pv_counters(pv: &Pv, counters: &mut Vec<String>) {
-    let names = ["name_style", "tag_style", "method_style", "params", "node_timeout", "retry_delay", "default_timeout", "bystander", "handle", "malformed_kind", "constructor"];
+    let names = ["name_style", "tag_style", "method_style", "params", "node_timeout", "retry_delay", "default_timeout", "bystander", "handle", "malformed_kind", "constructor", "observers"];
     for (n, v) in names.iter().zip(pv.fields()) {
         counters.push(format!("param.{n}.{v}"));
     }
@@ -1434,6 +1454,8 @@ fn one_call(env: &Env, fleet: &Handles, node: &Node, variant: &str) -> Result<Ca
 
 /// The node under test, an optional healthy bystander node, and the fleet over them.
 struct Rig {
+    // (dropped first: the observers stop before the fleet and the nodes go)
+    _watchers: Option<Observers>,
     node: Node,
     by: Option<Node>,
     fleet: Handles,
@@ -1457,7 +1479,16 @@ fn build_rig(env: &Env, idx: &str, kind: &str, max: usize, seq: &[Beh], pv: &Pv)
             return Err("bystander_setup".into());
         }
     }
-    Ok(Rig { node, by, fleet })
+    let _watchers = if pv.ob > 0 {
+        let mut names = vec![pv.name("n")];
+        if by.is_some() {
+            names.push(pv.name("by"));
+        }
+        Some(Observers::start(env, &fleet.orig, names, pv.ob as usize, Some(Duration::from_micros(30))))
+    } else {
+        None
+    };
+    Ok(Rig { _watchers, node, by, fleet })
 }
 
 /// The bystander was healthy throughout: a call to it succeeds (the second one if only one attempt is
@@ -1505,21 +1536,34 @@ fn run_case(env: &Env, idx: &str, kind: &str, variant: &str, max: usize, seq: &[
     let mut script_calls = vec![];
     let mut healthy_calls = vec![];
     let mut recovered: Option<usize> = None;
+    let mut cut = false;
     let r: Result<(), String> = (|| {
         for _ in 0..(2 * seq.len() + 1) {
             if node.exhausted() {
                 break;
             }
-            script_calls.push(one_call(env, fleet, node, variant)?);
+            let c = one_call(env, fleet, node, variant)?;
+            let slow = c.t1.saturating_duration_since(c.t0) > SLOW_CALL;
+            script_calls.push(c);
+            if slow {
+                // far beyond what the script can cost: no point in paying for it 2*len+1 times
+                cut = true;
+                break;
+            }
         }
         node.set_healthy();
+        let allowed = if max >= 2 { 1 } else { 2 };
         for i in 0..HEALTHY_CALLS {
             let c = one_call(env, fleet, node, variant)?;
             let ok = c.res == "ok";
+            let slow = c.t1.saturating_duration_since(c.t0) > SLOW_CALL;
             healthy_calls.push(c);
             if ok {
                 recovered = Some(i + 1);
                 break;
+            }
+            if slow && i + 1 >= allowed {
+                break; // the verdict on recovery is settled
             }
         }
         Ok(())
@@ -1575,6 +1619,12 @@ fn run_case(env: &Env, idx: &str, kind: &str, variant: &str, max: usize, seq: &[
     }
     if let Some(f) = bystander_check(env, &rig, kind, max) {
         out.fails.push(f);
+    }
+    if cut && out.fails.is_empty() {
+        // the script phase was cut short and nothing is wrong by the oracles: the observation is
+        // incomplete, so it is not compared with the model either
+        out.skip = Some("slow_call".into());
+        return out;
     }
     let mut words = vec![idx.to_string(), "s".into()];
     words.extend(script_calls.iter().map(show_call));
@@ -1957,6 +2007,11 @@ fn run_bc(env: &Env, idx: &str, kind: &str, max: usize, nodes: &[BcNode], req: &
     let configs: Vec<NodeConfig> = (0..nodes.len()).collect::<Vec<_>>().into_iter().map(config_of).collect();
     let fleet = AnyFleet::new(kind, configs, max, pv);
     let held = fleet.clone();
+    let _watchers = if pv.ob > 0 {
+        Some(Observers::start(env, &fleet, nodes.iter().map(|n| real_name(&n.name)).collect(), pv.ob as usize, Some(Duration::from_micros(30))))
+    } else {
+        None
+    };
     let params_value = pv.params();
     let params: Option<&serde_json::Value> = if pv.pa == 4 { None } else { Some(&params_value) };
     let method = pv.method(&format!("/bc{}", live.first().map_or(0, |x| x.sh.id)));
@@ -2180,6 +2235,220 @@ fn run_bc(env: &Env, idx: &str, kind: &str, max: usize, nodes: &[BcNode], req: &
 }
 
 // ------------------------------------------------------------------------------------------
+// observers: threads that look at the fleet through every read-only entry point while a case runs
+// ------------------------------------------------------------------------------------------
+/// 1–3 threads sweeping the read-only entry points of a clone of the fleet (`is_connected`,
+/// `is_connected_all`, `connected_nodes`, `nodes`, `keys`, `len`, `is_empty`, `node`, `filter_nodes`,
+/// `options`, `Display`) until dropped. None of them talks to a node; several take the node slots'
+/// locks, which is the point: what a call does to a slot must not depend on who else looks at it.
+struct Observers {
+    stop: Arc<std::sync::atomic::AtomicBool>,
+    sweeps: Arc<AtomicU64>,
+    threads: Vec<std::thread::JoinHandle<()>>,
+}
+
+impl Observers {
+    /// `pause`: sleep between sweeps (None = spin)
+    fn start(env: &Env, fleet: &AnyFleet, names: Vec<String>, count: usize, pause: Option<Duration>) -> Observers {
+        let stop = Arc::new(std::sync::atomic::AtomicBool::new(false));
+        let sweeps = Arc::new(AtomicU64::new(0));
+        let mut threads = vec![];
+        for t in 0..count {
+            let (fleet, names, stop, sweeps, rt) = (fleet.clone(), names.clone(), stop.clone(), sweeps.clone(), env.rt.handle().clone());
+            let spawned = std::thread::Builder::new().stack_size(256 << 10).spawn(move || {
+                let none: [&str; 0] = [];
+                let mut k = t;
+                // spinning observers spend nearly all their time in the shortest entry point that takes a
+                // node slot's lock (`is_connected`), in batches, and sweep the others between batches
+                let batch = if pause.is_none() { 512 } else { 1 };
+                let mut mine = 0u64;
+                while !stop.load(Ordering::Relaxed) {
+                    k += 1;
+                    match &fleet {
+                        AnyFleet::B(f) => {
+                            for _ in 0..batch {
+                                for n in &names {
+                                    let _ = f.is_connected(n);
+                                }
+                            }
+                            match k % 8 {
+                                0 => drop(f.connected_nodes()),
+                                1 => drop(f.is_connected_all()),
+                                2 => drop(format!("{f}")),
+                                3 => drop((f.nodes(), f.keys(), f.len(), f.is_empty())),
+                                4 => drop((f.filter_nodes(&none), f.options())),
+                                5 => drop(names.first().map(|n| f.node(n))),
+                                _ => {}
+                            }
+                        }
+                        AnyFleet::A(f) => rt.block_on(async {
+                            for _ in 0..batch {
+                                for n in &names {
+                                    let _ = f.is_connected(n).await;
+                                }
+                            }
+                            match k % 8 {
+                                0 => drop(f.connected_nodes().await),
+                                1 => drop(f.is_connected_all().await),
+                                3 => drop((f.nodes().await, f.keys().await, f.len().await, f.is_empty().await)),
+                                4 => drop((f.filter_nodes(&none).await, f.options())),
+                                5 => {
+                                    if let Some(n) = names.first() {
+                                        drop(f.node(n).await)
+                                    }
+                                }
+                                _ => {}
+                            }
+                        }),
+                    }
+                    mine += batch as u64;
+                    if mine >= 4096 || pause.is_some() {
+                        sweeps.fetch_add(mine, Ordering::Relaxed);
+                        mine = 0;
+                    }
+                    if let Some(p) = pause {
+                        std::thread::sleep(p);
+                    }
+                }
+                sweeps.fetch_add(mine, Ordering::Relaxed);
+            });
+            if let Ok(h) = spawned {
+                threads.push(h);
+            }
+        }
+        Observers { stop, sweeps, threads }
+    }
+    fn sweeps(&self) -> u64 {
+        self.sweeps.load(Ordering::Relaxed)
+    }
+}
+
+impl Drop for Observers {
+    fn drop(&mut self) {
+        self.stop.store(true, Ordering::SeqCst);
+        for h in self.threads.drain(..) {
+            let _ = h.join();
+        }
+    }
+}
+
+/// `obs`: rounds of "the node drops one request, then is healthy" on one fleet, with observer threads
+/// spinning. Round = the node's script is `[atc]`; call A; if A did not succeed, call B.
+/// max_attempts >= 2: A's second attempt must reconnect and succeed. max_attempts = 1: A fails with the
+/// transport error, B must reconnect and succeed. The oracle does not depend on timing (a healthy
+/// node must be reached after a transport failure); only the interleaving with the observers does,
+/// hence the rounds.
+fn run_obs(env: &Env, idx: &str, kind: &str, variant: &str, max: usize, observers: usize, rounds: usize, pv: &Pv) -> CaseOut {
+    let mut out = CaseOut::default();
+    let k = kind_name(kind);
+    let rig = match build_rig(env, idx, kind, max, &[], pv) {
+        Ok(r) => r,
+        Err(e) => {
+            out.skip = Some(e);
+            return out;
+        }
+    };
+    let (node, fleet) = (&rig.node, &rig.fleet);
+    let mut names = vec![pv.name("n")];
+    if rig.by.is_some() {
+        names.push(pv.name("by"));
+    }
+    let watchers = Observers::start(env, &fleet.orig, names, observers, None);
+    let norm = |c: &CallRec| -> String {
+        let res = match c.res.as_str() {
+            "Io(ConnectionReset)" | "Io(ConnectionAborted)" => "Io(UnexpectedEof)",
+            x => x,
+        };
+        format!("{}:{}:{}", c.contacts.len(), res, c.conn as u8)
+    };
+    let mut first: Option<String> = None;
+    let mut deviation: Option<(usize, String)> = None;
+    for round in 0..rounds {
+        node.reload(vec![Beh::Atc]);
+        let r: Result<Vec<CallRec>, String> = (|| {
+            let a = one_call(env, fleet, node, variant)?;
+            if a.res == "ok" {
+                return Ok(vec![a]);
+            }
+            let b = one_call(env, fleet, node, variant)?;
+            Ok(vec![a, b])
+        })();
+        let calls = match r {
+            Ok(c) => c,
+            Err(e) => {
+                out.skip = Some(e);
+                return out;
+            }
+        };
+        let shown = calls.iter().map(norm).collect::<Vec<_>>().join(" ");
+        let ctx = format!(
+            "round {round} of {rounds}, {observers} observer thread(s) ({} looks at the node slot so far), max_attempts {max}: calls {} (contacts:result:is_connected)",
+            watchers.sweeps(),
+            calls.iter().map(show_call).collect::<Vec<_>>().join(" ")
+        );
+        let a = &calls[0];
+        // a starved node may answer too late; that is a matter of scheduling
+        if calls.iter().any(|c| c.res == "Io(TimedOut)") {
+            out.skip = Some("late_reply".into());
+            return out;
+        }
+        if max >= 2 && a.res != "ok" && a.contacts.len() == 1 {
+            // one request reached the node, the node dropped it and has been accepting and answering
+            // since; attempts were left, none of them reached the node
+            out.fails.push((format!("fleet.{k}.recover.next_attempt_did_not_reconnect"), ctx.clone()));
+        }
+        if let Some(b) = calls.get(1) {
+            if max == 1 && b.res != "ok" && b.contacts.is_empty() && a.contacts.len() == 1 {
+                out.fails.push((format!("fleet.{k}.recover.next_call_did_not_reconnect"), ctx.clone()));
+            }
+        }
+        // the clauses of a call, and the rules about evidence that deviated from the script for
+        // reasons of scheduling (a request read after the client had given up, a late reply …)
+        if out.fails.is_empty() {
+            for (i, c) in calls.iter().enumerate() {
+                match check_call(kind, max, c, &format!("round {round}, call {}", i + 1), false) {
+                    Verdict::Fine => {}
+                    Verdict::Skip(r) => {
+                        out.skip = Some(r);
+                        return out;
+                    }
+                    Verdict::Fail(sig, d) => {
+                        out.fails.push((sig, format!("{d}; {ctx}")));
+                        break;
+                    }
+                }
+            }
+        }
+        if !out.fails.is_empty() {
+            deviation = Some((round, shown));
+            break;
+        }
+        match &first {
+            None => first = Some(shown),
+            Some(f) if *f != shown => {
+                deviation = Some((round, shown));
+                break;
+            }
+            _ => {}
+        }
+    }
+    let sweeps = watchers.sweeps();
+    drop(watchers);
+    out.obs = Some(match deviation {
+        None => format!("{idx} all {}", first.unwrap_or_default()),
+        // which round an interleaving hits differs from execution to execution: a failing case says
+        // only that it deviates (round and calls are in the failure's detail), so that it reproduces
+        Some(_) if !out.fails.is_empty() => format!("{idx} deviates"),
+        Some((r, s)) => format!("{idx} first {} round {r} {s}", first.unwrap_or_default()),
+    });
+    out.nontrivial = true;
+    out.counters.push(format!("obs.{k}.max{max}.observers{observers}"));
+    out.counters.push(format!("obs.looks_per_round.{}k", if rounds == 0 { 0 } else { (sweeps / rounds as u64 / 1000).min(100) / 10 * 10 }));
+    pv_counters(pv, &mut out.counters);
+    out
+}
+
+// ------------------------------------------------------------------------------------------
 // what the constructors refuse
 // ------------------------------------------------------------------------------------------
 fn run_opts(env: &Env, idx: &str, kind: &str, what: &str) -> CaseOut {
@@ -2260,6 +2529,13 @@ fn exec(env: &Env, line: &str) -> CaseOut {
             let (Ok(max), Some(nodes)) = (max.parse::<usize>(), parse_bc_nodes(nodes)) else { return bad() };
             let req: Vec<String> = if *req == "-" { vec![] } else { req.split(',').map(|x| x.to_string()).collect() };
             run_bc(env, idx, kind, max, &nodes, &req, *op == "mr", pv)
+        }
+        ["obs", idx, kind, variant, max, observers, rounds] if ["b", "a"].contains(kind) && ["json", "jsonnp", "msg"].contains(variant) => {
+            let (Ok(max), Ok(o), Ok(r)) = (max.parse::<usize>(), observers.parse::<usize>(), rounds.parse::<usize>()) else { return bad() };
+            if max == 0 || max > 1000 || o > 8 || r == 0 || r > 100_000 {
+                return bad();
+            }
+            run_obs(env, idx, kind, variant, max, o, r, pv)
         }
         ["opts", idx, kind, what] if ["b", "a"].contains(kind) && ["zero", "dup", "dupadd"].contains(what) => run_opts(env, idx, kind, what),
         ["life", idx, kind, max, seq, ops, ..] if w.len() <= 7 && ["b", "a"].contains(kind) => {
@@ -2354,6 +2630,24 @@ fn gen_cases(rng: &mut Rng, thorough: bool) -> Vec<String> {
                 pv.dl = 0;
                 let seq = if i % 2 == 0 { vec![*b] } else { vec![*b, Beh::Success] };
                 ops.push(format!("case d{n_new} {kind} {} 3 {} {}", ["json", "jsonnp", "msg"][n_new % 3], show_seq(&seq), pv.show()));
+            }
+        }
+    }
+    // read-only observers spinning while a node drops a request and is healthy again, in rounds on one fleet
+    {
+        let rounds = if thorough { 800 } else { 400 };
+        let mut o = 0usize;
+        for kind in ["b", "a"] {
+            for max in [1usize, 2, 3] {
+                for observers in [1usize, 2, 3] {
+                    o += 1;
+                    let mut pv = Pv::random(rng);
+                    pv.ob = 0;
+                    pv.op = 0;
+                    pv.nm = 0; // a short name: the observers' time goes into the slot lock, not into hashing the key
+                    pv.dl = [0, 2][o % 2]; // 15 ms or 1 ms between attempts
+                    ops.push(format!("obs w{o} {kind} {} {max} {observers} {rounds} {}", ["json", "jsonnp", "msg"][o % 3], pv.show()));
+                }
             }
         }
     }
@@ -2469,7 +2763,7 @@ fn main() {
     out.extra.insert("sniffer".into(), serde_json::json!(env.sniffer.is_some()));
     out.extra.insert("node_timeout_ms".into(), serde_json::json!(T_NODE.as_millis() as u64));
     out.extra.insert("retry_delay_ms".into(), serde_json::json!(DELAY.as_millis() as u64));
-    out.rule = "case = fresh Fleet/AsyncFleet + one scripted node: calls until the script is consumed (at most 2*len+1), then a healthy phase of up to 3 calls; all behaviour sequences over the 7-letter alphabet up to length max+2 (quick: max 1 up to length 3, max 2 up to length 4, max 3 up to length 3 + 300 sampled sequences of length 4-5; thorough: max 1..3 up to length max+2, exhaustive) + sampled sequences up to length 6 for max_attempts 4, 5, 8, 64 (quick 150, thorough 600) + 12 cases through Fleet::new / AsyncFleet::new (default options), both fleets, call variants json/jsonnp/msg in rotation (thorough: all three for max 1,2); life = every sequence (length 1-3) of connect_all / disconnect_all / reconnect_disconnected / health_check / call against node scripts of length <= 2 without silent (quick: 8 sampled scripts each; thorough: all 43), then the healthy phase; bc / mr (map_reduce_json) = every assignment of tag subsets to up to 3 (thorough 4) nodes x every requested subset, each subset also reversed and with a repeat, one duplicated tag, a tag no node carries; every 7th with a refusing node, every 5th with a node that is silent on every attempt, every 11th with a node answering an application error; after the judged broadcast every node is healthy and the same fleet is used again through the twin entry point (after a panicking reducer in some mr cases) and, in about a fifth of the cases, after remove_node / add_node; opts = what the constructors must refuse (max_attempts 0, duplicate names at construction and at add_node). Two cases in three carry a word p= with drawn values of the parameters the property does not depend on (distribution: param.*). Distinct by op line; non-trivial = a call retried, hit a dead cached client, or returned an error / a broadcast that selects a proper non-empty subset or has a refusing node".into();
+    out.rule = "case = fresh Fleet/AsyncFleet + one scripted node: calls until the script is consumed (at most 2*len+1), then a healthy phase of up to 3 calls; all behaviour sequences over the 7-letter alphabet up to length max+2 (quick: max 1 up to length 3, max 2 up to length 4, max 3 up to length 3 + 300 sampled sequences of length 4-5; thorough: max 1..3 up to length max+2, exhaustive) + sampled sequences up to length 6 for max_attempts 4, 5, 8, 64 (quick 150, thorough 600) + 12 cases through Fleet::new / AsyncFleet::new (default options), both fleets, call variants json/jsonnp/msg in rotation (thorough: all three for max 1,2); life = every sequence (length 1-3) of connect_all / disconnect_all / reconnect_disconnected / health_check / call against node scripts of length <= 2 without silent (quick: 8 sampled scripts each; thorough: all 43), then the healthy phase; bc / mr (map_reduce_json) = every assignment of tag subsets to up to 3 (thorough 4) nodes x every requested subset, each subset also reversed and with a repeat, one duplicated tag, a tag no node carries; every 7th with a refusing node, every 5th with a node that is silent on every attempt, every 11th with a node answering an application error; after the judged broadcast every node is healthy and the same fleet is used again through the twin entry point (after a panicking reducer in some mr cases) and, in about a fifth of the cases, after remove_node / add_node; obs = 400 (thorough 800) rounds on one fleet of [the node drops one request, then is healthy] for max_attempts 1/2/3, both fleets, while 1-3 threads spin on the read-only entry points; one case in eight of the other families runs with 1-3 pausing observer threads (param.observers); a connection the node was silent on stays hung; opts = what the constructors must refuse (max_attempts 0, duplicate names at construction and at add_node). Two cases in three carry a word p= with drawn values of the parameters the property does not depend on (distribution: param.*). Distinct by op line; non-trivial = a call retried, hit a dead cached client, or returned an error / a broadcast that selects a proper non-empty subset or has a refusing node".into();
     let mut ops: Vec<String> = match args.replay_ops() {
         Some(ops) => ops,
         None => gen_cases(&mut rng, args.thorough()),
@@ -2581,7 +2875,7 @@ fn main() {
     // share of cases not judged, by kind of reason (evidence only; never a verdict)
     let sum = |f: &dyn Fn(&str) -> bool| -> u64 { out.counters.iter().filter(|(k, _)| k.starts_with("skipped.") && f(&k[8..])).map(|(_, v)| *v).sum() };
     let behavioural = sum(&|k| ["idle_handshake", "settle", "stranger"].contains(&k) || k.starts_with("class_not_engineered"));
-    let scheduling = sum(&|k| ["node_lagged", "late_reply", "late_reply_retry", "desync"].contains(&k));
+    let scheduling = sum(&|k| ["node_lagged", "late_reply", "late_reply_retry", "desync", "slow_call"].contains(&k));
     let evidence = sum(&|k| ["refusal_unseen", "refusal_out_of_window", "sniffer_drops", "unconfirmed_failure", "no_sniffer", "harness_panic"].contains(&k) || k.starts_with("barrier") || (k.starts_with("node_") && k != "node_lagged"));
     out.extra.insert("cases_generated".into(), serde_json::json!(ops.len()));
     out.extra.insert("skipped_socket_behaviour".into(), serde_json::json!(behavioural));
